@@ -552,6 +552,19 @@ theorem stamp_heads {h : Hist} {o : LoadOpts} {m : LMap} (hl : load h o = .ok m)
       · exact hx
     · exact Or.inr
 
+/-! ### lineage in terms of the history as written -/
+
+/-- "shares a lineage with `d`" in the loaded map is "ancestor or descendant of `d` through the
+down-revision and depends-on links written in the files" — the relation the oracle `stampOk` and
+the property text use.  With it `stamp_one` / `stamp_several` / `stamp_heads` read
+`rows' = (rows \ lineage(dests)) ∪ dests` over the history as written. -/
+theorem lineage_history {h : Hist} {o : LoadOpts} {m : LMap} (hl : load h o = .ok m)
+    (hu : (h.map (·.id)).Nodup) (d x : Id) :
+    Lineage m d x ↔ (IsAnc h [d] x ∨ IsDesc h [d] x) := by
+  unfold Lineage IsAnc IsDesc
+  simp only [List.mem_singleton, exists_eq_left]
+  rw [reach_allDown_iff_parents hl hu d x, reach_allDown_iff_parents hl hu x d, C02.reach_children_iff h d x]
+
 /-! ### the oracle `Spec.Rev.stampOk`, evaluated on the implementation's rows, decides the statement -/
 
 /-- **What a `true` verdict of the stamp oracle means** (for at least one destination): the rows
